@@ -13,7 +13,31 @@ impl<A: Array> SmallVec<A> {
     #[inline] pub fn clear(&mut self) { self.v.clear() }
     #[inline] pub fn as_slice(&self) -> &[A::Item] { &self.v }
     #[inline] pub fn into_vec(self) -> Vec<A::Item> { self.v }
+    #[inline] pub fn with_capacity(n: usize) -> Self { SmallVec { v: Vec::with_capacity(n) } }
+    #[inline] pub fn from_vec(v: Vec<A::Item>) -> Self { SmallVec { v } }
+    #[inline] pub fn as_mut_slice(&mut self) -> &mut [A::Item] { &mut self.v }
+    #[inline] pub fn capacity(&self) -> usize { self.v.capacity() }
+    #[inline] pub fn inline_size(&self) -> usize { A::size() }
+    #[inline] pub fn spilled(&self) -> bool { self.v.len() > A::size() }
+    #[inline] pub fn insert(&mut self, i: usize, x: A::Item) { self.v.insert(i, x) }
+    #[inline] pub fn swap_remove(&mut self, i: usize) -> A::Item { self.v.swap_remove(i) }
+    #[inline] pub fn truncate(&mut self, n: usize) { self.v.truncate(n) }
+    #[inline] pub fn retain<F: FnMut(&mut A::Item) -> bool>(&mut self, mut f: F) { self.v.retain_mut(|x| f(x)) }
+    #[inline] pub fn dedup(&mut self) where A::Item: PartialEq { self.v.dedup() }
+    #[inline] pub fn dedup_by_key<K: PartialEq, F: FnMut(&mut A::Item) -> K>(&mut self, f: F) { self.v.dedup_by_key(f) }
+    #[inline] pub fn dedup_by<F: FnMut(&mut A::Item, &mut A::Item) -> bool>(&mut self, f: F) { self.v.dedup_by(f) }
+    #[inline] pub fn append<B: Array<Item = A::Item>>(&mut self, other: &mut SmallVec<B>) { self.v.append(&mut other.v) }
+    #[inline] pub fn extend_from_slice(&mut self, s: &[A::Item]) where A::Item: Clone { self.v.extend_from_slice(s) }
+    #[inline] pub fn drain<R: std::ops::RangeBounds<usize>>(&mut self, r: R) -> std::vec::Drain<'_, A::Item> { self.v.drain(r) }
+    #[inline] pub fn reserve(&mut self, n: usize) { self.v.reserve(n) }
+    #[inline] pub fn shrink_to_fit(&mut self) {}
+    #[inline] pub fn resize(&mut self, n: usize, x: A::Item) where A::Item: Clone { self.v.resize(n, x) }
 }
+impl<A: Array> PartialEq for SmallVec<A> where A::Item: PartialEq { fn eq(&self, o: &Self) -> bool { self.v == o.v } }
+impl<A: Array> Eq for SmallVec<A> where A::Item: Eq {}
+impl<A: Array> From<Vec<A::Item>> for SmallVec<A> { fn from(v: Vec<A::Item>) -> Self { SmallVec { v } } }
+impl<A: Array> AsRef<[A::Item]> for SmallVec<A> { fn as_ref(&self) -> &[A::Item] { &self.v } }
+impl<A: Array> std::borrow::Borrow<[A::Item]> for SmallVec<A> { fn borrow(&self) -> &[A::Item] { &self.v } }
 impl<A: Array> Default for SmallVec<A> { fn default() -> Self { Self::new() } }
 impl<A: Array> Deref for SmallVec<A> { type Target = [A::Item]; fn deref(&self) -> &[A::Item] { &self.v } }
 impl<A: Array> DerefMut for SmallVec<A> { fn deref_mut(&mut self) -> &mut [A::Item] { &mut self.v } }
